@@ -582,7 +582,7 @@ fn run_boxcox(cfg: &Cfg, rep: &mut Report) {
             };
             rep.case("boxcox:x<=0");
             let r = guard(|| boxcox(bad, lambda));
-            rep.check("C17.boxcox.rejects", "boxcox:x<=0", r.is_err(), || json!({"x": jnum(bad), "lambda": lambda, "observed": jnum(*r.as_ref().unwrap()), "expected": "panic"}));
+            outside_domain_note(rep, "C17.boxcox.rejects", &r);
         }
         // ---- two-parameter form: four classes by the two predicates (x > shift) and (x + shift > 0)
         let t = rng.log_range(1e-6, 1e6); // intended x + shift for the in-domain classes
@@ -656,7 +656,7 @@ fn run_boxcox(cfg: &Cfg, rep: &mut Report) {
                 }
             }
         } else {
-            rep.check("C17.boxcox_shifted.rejects", regime, r.is_err(), || json!({"args": args, "observed": jnum(*r.as_ref().unwrap()), "expected": "panic: x + shift <= 0"}));
+            outside_domain_note(rep, "C17.boxcox_shifted.rejects", &r);
         }
     });
     rep.sample(|| json!({"fn": "boxcox", "x": 2.0, "lambda": 0.5, "value": boxcox(2.0, 0.5), "reference": bc_reference(2.0, 0.5).0}));
@@ -839,7 +839,19 @@ fn nan_family(rng: &mut Rng) -> Vec<f64> {
 
 fn reject_probe(rep: &mut Report, assertion: &str, regime: &str, args: Value, r: Result<f64, String>) {
     rep.case(regime);
+    if assertion.starts_with("C17.boxcox") {
+        outside_domain_note(rep, assertion, &r);
+        return;
+    }
     rep.check(assertion, regime, r.is_err(), || json!({"args": args, "observed": jnum(*r.as_ref().unwrap()), "expected": "panic: argument is not inside the domain"}));
+}
+
+/// The statement gives the Box–Cox transforms a value "on their stated domain x + shift > 0" and, unlike
+/// the logit clause, promises nothing outside it: what a call outside the domain does (the pinned tree
+/// panics; returning NaN / the IEEE limit would be as legitimate) is recorded as evidence, never judged.
+fn outside_domain_note(rep: &mut Report, assertion: &str, r: &Result<f64, String>) {
+    let f = if assertion.contains("shifted") { "boxcox_shifted" } else { "boxcox" };
+    rep.note_add(&format!("outside_domain.{}.{}", f, if r.is_err() { "panicked" } else { "returned_a_value" }), 1.0);
 }
 
 /// Every function the property describes as rejecting arguments (`logit` outside [0,1]; the Box–Cox
@@ -1183,8 +1195,8 @@ fn run_added_families(cfg: &Cfg, rep: &mut Report) {
 
 pub fn run(cfg: &Cfg, rep: &mut Report) {
     rep.rule = "logistic: consecutive f32 values in ±745 (thorough: all of them; quick: stratified runs), round trips on random x in ±30 and p in [0,1] (interior, tiny, near 1, subnormal, end points); softmax: lengths 1..1000, entries on a 2^-20 grid in ±1e4, one input class per magnitude regime, each vector also shifted by ±1e3, ±1e4, -max; Box–Cox: x, x+shift log-uniform in (1e-6,1e6), λ in ±5 incl. 0 and |λ|<1e-8, four (x>shift, x+shift>0) classes; binomial: every (n,k) with n<=67, then random n>=68 with k<=32 or k>=n-32 up to the largest n whose value fits 64 bits. rejection probes: NaN (both signs, quiet/signalling patterns, random payloads), ±inf and the representable neighbours of each domain edge for logit, boxcox, boxcox_shifted; history: each of the seven functions re-evaluated at one argument after itself, after near neighbours (2^-52..1e-6 away), in a sweep and on a fresh thread. non-trivial = softmax vector with >= 2 distinct entries, 0<k<n, x != 1, shift != 0; distinct by argument bits".into();
-    rep.assume("NaN is generated only as an argument that must be rejected (it is not inside [0,1] and does not satisfy x + shift > 0); values of the transforms at NaN, and NaN as λ, are outside the quantifier");
-    rep.assume("Box–Cox: +inf satisfies x + shift > 0 and is not probed as a rejection; -inf, NaN, 0, -0 and the negative neighbours of 0 must be rejected, the positive neighbour of 0 accepted");
+    rep.assume("NaN is generated only as an argument outside the domains: logit must reject it (it is not inside [0,1]); for Box–Cox it does not satisfy x + shift > 0 and the outcome is recorded, not judged; values of the transforms at NaN, and NaN as λ, are outside the quantifier");
+    rep.assume("Box–Cox: the statement promises a value on x + shift > 0 and nothing outside it (no rejection clause, unlike logit): calls with -inf, NaN, 0, -0 and the negative neighbours of 0 are made and their outcome (panic or value) is counted in coverage.notes outside_domain.*, not judged; the positive neighbour of 0 must be accepted");
     rep.assume("history independence: every function of C17 is a function of its arguments, so one argument has one result (bit pattern or panic) whatever the thread called before; compared against the same call made directly after an unrelated call of the same function and, for one case in 8, as the first call of a new thread");
     rep.assume("round-trip and softmax bounds carry an absolute underflow term of a few times the smallest normal number: results in the subnormal range have absolute, not relative, rounding error");
     rep.assume("softmax order preservation is non-strict (x_i < x_j ⇒ s_i <= s_j, equal inputs ⇒ identical outputs): far-below-maximum entries legitimately underflow to equal values");
